@@ -704,7 +704,12 @@ func init() {
 	H["verifIsSymbolic"] = func(fr *frame, a []value) value {
 		return true
 	}
+	H["verifPreempt"] = func(fr *frame, a []value) value {
+		X.sched().preemptAll = a[0].(bool)
+		return nil
+	}
 	H["verifYield"] = func(fr *frame, a []value) value {
+		X.sched().explicit = true
 		X.sched().yield(nil, strArg(a[0]))
 		X.sched().checkFailure()
 		return nil
@@ -724,6 +729,7 @@ func init() {
 		// verifBlockUntil(label, func() bool): park the thread until the predicate holds
 		fn := a[1]
 		i := fr.i
+		X.sched().explicit = true
 		X.sched().yield(func() bool {
 			r := call(i, nil, 0, fn, nil)
 			b, ok := r.(bool)
